@@ -64,6 +64,15 @@ class Orders:
             sel = None
             if isinstance(sl, (ast.Compare, ast.Name, ast.Call, ast.BinOp, ast.UnaryOp)):
                 sel = self.kind(sl)
+            if isinstance(sl, ast.Tuple) and sl.elts and isinstance(sl.elts[-1], ast.Name) and self.kind(sl.elts[-1]) in ('P', 'P1'):
+                # x[..., perm]: fancy indexing with one permutation for all rows
+                if self.kind(sl.elts[-1]) == 'P1':
+                    self.reports.append((e, 'permutation of one sample applied to every sample'))
+                return 'S'
+            if sel in ('P', 'P1'):
+                if sel == 'P1' and base in ('I', 'S'):
+                    self.reports.append((e, 'permutation of one sample applied to every sample'))
+                return 'S'
             if sel in ('I', 'S') and base in ('I', 'S', 'N'):
                 if base == 'N':
                     return sel          # identity positions / a table selected by an ordered mask: takes the order of the mask
@@ -77,6 +86,11 @@ class Orders:
             if nm in FRESH:
                 return 'N'
             if nm == 'argsort':
+                arg = recv if recv is not None else (args[0] if args else None)
+                # argsort(x.reshape(-1, n)[0]) / argsort(x[0]): the permutation of ONE sample
+                for x in (ast.walk(arg) if arg is not None else ()):
+                    if isinstance(x, ast.Subscript) and isinstance(x.slice, ast.Constant) and isinstance(x.slice.value, int) and self.kind(x.value) in ('I', 'S'):
+                        return 'P1'
                 return 'P'
             if nm == 'sort':
                 return 'SORTPAIR'
@@ -86,6 +100,9 @@ class Orders:
                 ki = self.kind(idx) if idx is not None else None
                 ks = self.kind(src) if src is not None else None
                 if ki == 'P':
+                    return 'S'
+                if ki == 'P1':
+                    self.reports.append((e, 'permutation of one sample applied to every sample'))
                     return 'S'
                 if ks == 'N':
                     return ki            # table lookup: one value per index, in the order of the indices
@@ -221,7 +238,7 @@ def self_check():
             raise AnalysisError(f"order-kind self-check: the embedded example gives {got} reports, expected {expect}")
 
 
-def check_orders(ctx, rep, rule: str, module: str, input_params=('node_heights', 'x', 'value'), floor: int = 1) -> int:
+def check_orders(ctx, rep, rule: str, module: str, input_params=('node_heights', 'x', 'value'), floor: int = 1, only=None) -> int:
     from .loader import norm_text
     from .report import where
     self_check()
@@ -232,7 +249,7 @@ def check_orders(ctx, rep, rule: str, module: str, input_params=('node_heights',
             if not isinstance(fn, ast.FunctionDef):
                 continue
             params = [a.arg for a in fn.args.args if a.arg in input_params]
-            if not params:
+            if not params or (only is not None and not only(cname, fn)):
                 continue
             if not any(isinstance(c, ast.Call) and (dotted_name(c.func) or '').split('.')[-1] in ('argsort', 'sort') for c in ast.walk(fn)):
                 continue
@@ -247,8 +264,10 @@ def check_orders(ctx, rep, rule: str, module: str, input_params=('node_heights',
                     continue
                 seen.add(txt)
                 rep.bad(rule, f"{cname}.{fn.name}::{txt}", where(m, node), {'kind': what},
-                        f"{cname}.{fn.name}: `{txt}` ({what}) combines a vector in the order of the argument with one in sorted order: element i of one is paired with the "
-                        f"i-th smallest of the other — right only when the heights are passed already sorted")
+                        (f"{cname}.{fn.name}: `{txt}` reorders every sample of the batch with the sorting permutation of one sample: samples whose events are in another "
+                         f"order than that sample's are evaluated with their heights out of order" if 'one sample' in what else
+                         f"{cname}.{fn.name}: `{txt}` ({what}) combines a vector in the order of the argument with one in sorted order: element i of one is paired with the "
+                         f"i-th smallest of the other — right only when the heights are passed already sorted"))
             if not reports:
                 rep.ok(rule, f"{cname}.{fn.name}::input-order-and-sorted-order-kept-apart", where(m, fn), {'operations_with_known_orders': o.decided})
     rep.analysed[f'order_kind_functions[{rule}]'] = n_fn
